@@ -86,6 +86,14 @@ def cases(tier, seed):
         if d >= 2:
             sw_ = names[3][:1] + names[3][1:][::-1]
             progs.append((f'a.{sw_} * b', 2)); progs.append((f'b * a.{sw_} + a', 2))
+        if d >= 3:
+            # every spelling of the grade-3 blade: cyclic rotations are EVEN permutations that are not the identity
+            import itertools as _it
+            w = ''.join(format(i + (0 if r == 1 else 1), 'x') for i in range(3))
+            for pm in _it.permutations(w):
+                sp = 'e' + ''.join(pm)
+                progs.append((f'a.{sp} * b + a', 2))
+            progs.append((f'a.e{w[1]}{w[2]}{w[0]} * a.e{w[2]}{w[0]}{w[1]} + b', 2))
         progs.append(('a.norm() + 0', 1)); progs.append(('a.normalized() * 1', 1))       # same, on mixed-grade operands (see below)
         # depth 2
         d2 = []
@@ -134,6 +142,9 @@ def cases(tier, seed):
                     continue
                 if src == 'a.sqrt()':
                     keys = [[0, 2 ** d - 1]]
+                import re as _re
+                if d >= 3 and _re.search(r'a\.e[0-9a-f]{3}\b', src) and 7 not in keys[0]:
+                    keys[0] = list(keys[0])[:3] + [7]          # the blade that is read must be stored
                 if d >= 3 and any(t in src for t in ('inv()', '** -', ' / ', '.div(')):
                     # inverses of intermediate results: keep the operands sparse (generation time)
                     keys = [list(rng.choice([p for p in pats_ if len(p) <= 3])) for _ in range(nargs)]
